@@ -5,7 +5,7 @@ From Coq Require Import ZArith PArith List Bool.
 From MSV Require Import Lib.Rel Model.SqlEval.
 Import ListNotations.
 
-Definition inside (d : name) (cx : ctx) : ctx := mkCtx (c_db cx) [d] (c_res cx) (c_ctes cx).
+Definition inside (d : name) (cx : ctx) : ctx := mkCtx (c_db cx) [d] (c_res cx) (c_ctes cx) (c_vars cx).
 
 Lemma lookup_strip d rest db : lookup_tab ([] ++ d :: rest) db = lookup_tab ([d] ++ rest) db.
 Proof. reflexivity. Qed.
@@ -30,7 +30,7 @@ Theorem strip_table_cte_capture_refuted :
     eval_f fuel (inside d cx) (FTab rest al) <> eval_f fuel cx (FTab (d :: rest) al).
 Proof.
   exists 2%nat, 5%positive, [7%positive], None,
-    (mkCtx [([5; 7]%positive, ([9%positive], [[VInt 1]]))] [] [] [(7%positive, ([(None, 9%positive)], [[VInt 2]]))]).
+    (mkCtx [([5; 7]%positive, ([9%positive], [[VInt 1]]))] [] [] [(7%positive, ([(None, 9%positive)], [[VInt 2]]))] []).
   split; [reflexivity|]. split; [discriminate|]. vm_compute. discriminate.
 Qed.
 
@@ -40,6 +40,6 @@ Theorem strip_alias_like_integration_refuted :
   exists fuel cx sch rw c d,
     eval_e fuel cx sch rw None (ECol None c) <> eval_e fuel cx sch rw None (ECol (Some d) c).
 Proof.
-  exists 1%nat, (mkCtx [] [] [] []), [(Some 3%positive, 9%positive); (Some 5%positive, 9%positive)], [VInt 1; VInt 2],
+  exists 1%nat, (mkCtx [] [] [] [] []), [(Some 3%positive, 9%positive); (Some 5%positive, 9%positive)], [VInt 1; VInt 2],
          9%positive, 5%positive. vm_compute. discriminate.
 Qed.
